@@ -67,8 +67,11 @@ def observe(obs, ref, refcache):
                 dirty.append(f"{f}/{fld}")
     pure = None
     if obs["step"][0] == "call":
-        key = f"{obs['step'][1]}|{obs['step'][2]}"
-        pure = (not obs.get("exc")) and obs["result"] == ref[key]["result"]
+        key = f"{obs['step'][1]}|{obs['step'][2]}|{obs.get('ver', 0)}"
+        if ref[key].get("exc"):      # a fresh interpreter raises for these arguments: the same exception type is the pure answer
+            pure = obs.get("exc", "").split(":")[0] == ref[key]["exc"].split(":")[0]
+        else:
+            pure = (not obs.get("exc")) and obs["result"] == ref[key]["result"]
     return loaded, sorted(dirty), pure, obs.get("args_unchanged", True)
 
 
@@ -85,6 +88,8 @@ def run(tier):
         if any(x is None for x in a):
             raise MachineryError(f"pristine call {k} failed: {[r[k].get('error') for r in refs]}")
         if any(x["exc"] for x in a):
+            if k.endswith("|1"):
+                continue          # the edited argument is not accepted by this API in a fresh interpreter either: compared as-is
             raise MachineryError(f"pristine call {k} raises: {a[0]['exc']}")
         if not (a[0]["result"] == a[1]["result"] == a[2]["result"]):
             ck.violation(f"hashseed {k}", f"{k}: fresh interpreters with different PYTHONHASHSEED return different results", {"call": k})
@@ -141,6 +146,7 @@ def run(tier):
     #     identifies handles that alias nothing, so its transitions do not name every API; these do
     for c in cfgs:
         for a in apis:
+            histories.append(([["call", a, c], ["editarg", 0, ""], ["call", a, c], ["editarg", 0, ""], ["call", a, c]], None, "directed"))
             histories.append(([["call", a, c], ["mutate", 1, ""], ["call", a, c]], None, "directed"))
             histories.append(([["call", a, c], ["call", a, c], ["mutate", 2, ""], ["call", a, c]], None, "directed"))
         for a in apis:
@@ -213,6 +219,8 @@ def replay(path):
         print(p)
         return 1
     apis = sorted({s[1] for s in p["history"] if s[0] == "call"})
+    if not apis:
+        return 0
     cfgs = sorted({s[2] for s in p["history"] if s[0] == "call"})
     refs = pristine(apis, cfgs)
     ref = {k: v["ok"] for k, v in refs[0].items()}
